@@ -26,7 +26,7 @@ def fresh_table(fa, message_style):
 
 async def check_expression(ctx, case):
     ast, s = case["ast"], case["s"]
-    rng = ctx.rng
+    rng = ctx.case_rng(case)
     ctx.set_case("expression", case)
     out = capture(parse_condition_expression_to_tree, s)
     if out[0] != "ok":
@@ -70,7 +70,7 @@ async def check_expression(ctx, case):
     for fa in (fas if len(fas) <= 4 else rng.sample(fas, 4)):
         ctx.evaluation()
         ctx.count("async_evaluations")
-        wcase = dict(case, assignments=[fa])
+        wcase = case
         explicit = rng.random() < 0.5
         world = E.World("c08", fc=dict(fa), fc_msg={k: f"E{k}" for k in fa} if explicit else None)
         scheduler = sched.Sched(sched.RandomChooser(rng)) if rng.random() < 0.6 else None
@@ -92,9 +92,10 @@ async def check_shipped(ctx, case):
     ast, s = case["ast"], case["s"]
     ctx.set_case("shipped", case)
     keys = G.keys_of(ast, "fc")
+    crng = ctx.case_rng(case)
     for _ in range(2):
-        fa = {k: ctx.rng.random() < 0.5 for k in keys}
-        with_messages = ctx.rng.random() < 0.5
+        fa = {k: crng.random() < 0.5 for k in keys}
+        with_messages = crng.random() < 0.5
         cer = E.make_cer({}, fa, {}, fc_msg={k: f"E{k}" for k in keys} if with_messages else None)
         expected = logic.ast_bool(ast, fa)
         for mode in ("hardcoded", "cer"):
@@ -131,7 +132,7 @@ async def check_concurrent(ctx, case):
     async def all_of_them():
         return await asyncio.gather(*[asyncio.ensure_future(one(t)) for t in texts], return_exceptions=True)
 
-    sc = sched.Sched(sched.RandomChooser(ctx.rng))
+    sc = sched.Sched(sched.RandomChooser(ctx.case_rng(case)))
     out = await sched.run_under(sc, all_of_them)
     ctx.evaluation(len(texts))
     ctx.count("concurrent_evaluations", len(texts))
